@@ -113,8 +113,8 @@ pub enum Op {
     Emit,
     EmitFile { target: FileTarget },
     Gc,
-    /// re-parse the last emitted bytes (emitting first if there are none) under
-    /// `cfg` and continue the history on the new module
+    /// emit now, re-parse those bytes under `cfg` and continue the history on
+    /// the new module
     Reparse { cfg: CfgBits },
     /// read-only traversal of everything; must not change anything
     Query,
@@ -189,6 +189,8 @@ pub struct CustomSeen {
 #[derive(Serialize, Deserialize, Clone, Debug, PartialEq, Eq)]
 pub enum StepOut {
     Parsed { ok: bool, err: String, on_parse_calls: u32 },
+    /// `Op::Reparse`: the bytes emitted for the re-parse, then the parse outcome
+    Reparsed { emitted: Vec<u8>, ok: bool, err: String, on_parse_calls: u32 },
     Emit { bytes: Vec<u8> },
     EmitFile { ok: bool, err: String, file: Option<Vec<u8>> },
     Gc,
